@@ -144,6 +144,11 @@ type c15Cell struct {
 	// Exp, when non-zero, is the expected outcome given by the generator of the cell (session and
 	// key-replacement cells) instead of the table c15Expect.
 	Exp int `json:"-"`
+	// Origin ("session" / "keyfile:<phase>"), Label (what the token is, in words of the generator) and
+	// History (":first", ":after-valid", ...) name such a cell in violation keys.
+	Origin  string `json:"origin,omitempty"`
+	Label   string `json:"token_label,omitempty"`
+	History string `json:"history,omitempty"`
 }
 
 func (c c15Cell) key() string { return c.Cmd + ":" + c.Conn + ":" + c.Type + ":" + c.Tok }
@@ -1320,6 +1325,10 @@ func runC15(tier string, _ []string) {
 			o.Effects = eff
 			o.Note = "effect appeared after the observation window of the command (seen when the unit was examined again)"
 			c := prev.Cell
+			if c.Origin != "" {
+				j.judgeGiven(&o, "")
+				return
+			}
 			run.Violation(fmt.Sprintf("effect:%s:%s:%s:%s", c.Cmd, c.Conn, c.Type, c.Tok),
 				fmt.Sprintf("work %s over %s for a %s work type with token class %s took (delayed) effect %v", c.Cmd, c.Conn, c.Type, c.Tok, eff), o)
 		}
@@ -1328,31 +1337,43 @@ func runC15(tier string, _ []string) {
 	var sampleMu sync.Mutex
 	sampled := map[string]bool{}
 	for ai, a := range arenas {
-		// the sessions of this arena are queued in front of its cells (same workers)
+		// the sessions of this arena are queued between its cells (same workers)
 		var mySessions []c15Session
 		for si, s := range sessions {
 			if si%len(arenas) == ai {
 				mySessions = append(mySessions, s)
 			}
 		}
-		sch := make(chan c15Session, len(mySessions))
-		for _, s := range mySessions {
-			sch <- s
+		type job struct {
+			c *c15Cell
+			s *c15Session
 		}
-		close(sch)
-		ch := make(chan c15Cell, len(per[ai]))
-		for _, c := range per[ai] {
-			ch <- c
+		ch := make(chan job, len(per[ai])+len(mySessions))
+		every, ns := len(per[ai])+1, 0
+		if len(mySessions) > 0 {
+			every = len(per[ai])*3/4/len(mySessions) + 1 // all sessions are queued within the first three quarters
+		}
+		for ci := range per[ai] {
+			if ci%every == 0 && ns < len(mySessions) {
+				ch <- job{s: &mySessions[ns]}
+				ns++
+			}
+			ch <- job{c: &per[ai][ci]}
+		}
+		for ; ns < len(mySessions); ns++ {
+			ch <- job{s: &mySessions[ns]}
 		}
 		close(ch)
 		for w := 0; w < workers; w++ {
 			wg.Add(1)
 			go func(a *c15Arena) {
 				defer wg.Done()
-				for s := range sch {
-					c15DoSession(run, j, a, s)
-				}
-				for c := range ch {
+				for jb := range ch {
+					if jb.s != nil {
+						c15DoSession(run, j, a, *jb.s)
+						continue
+					}
+					c := *jb.c
 					var o *c15Obs
 					for try := 0; try < 2; try++ {
 						if try > 0 && c.Type == c15U && c.Cmd != "submit" {
@@ -1414,7 +1435,7 @@ func runC15(tier string, _ []string) {
 	j.mu.Unlock()
 	run.Count("cells_planned", int64(len(cells)))
 	run.Count("sessions_planned", int64(len(sessions)))
-	run.Extra("tmp_session_ms", []int64{c15TmpT[0].Load(), c15TmpT[1].Load(), c15TmpT[2].Load(), c15TmpT[3].Load(), c15TmpT[4].Load()})
+
 	run.Count("keyfile_commands_planned", int64(rotPlanned))
 	run.Count("mesh_sessions", meshDials)
 	run.Count("arenas", int64(nArenas))
